@@ -8,6 +8,7 @@
 -/
 import PomerolModel.Model.Symm
 import PomerolModel.Model.LatticeSpec
+import PomerolModel.Model.Container4
 import Driver.Util
 import Driver.Scalars
 
@@ -96,6 +97,23 @@ structure St (K : Type) where
   syms : List (Poly K) := []
   blkOf : List Nat := []
   blocks : List (List Nat) := []
+  c4 : C4.State := {}
+
+def readQuads : Nat → List String → List C4.Quad
+  | 0, _ => []
+  | n + 1, a :: b :: c :: d :: r => (a.toNat!, b.toNat!, c.toNat!, d.toNat!) :: readQuads n r
+  | _, _ => []
+
+/-- `tpc list` line: distinct elements numbered by first appearance in `ElementsMap` order -/
+def c4List (s : C4.State) : String :=
+  let ids : List Nat := s.emap.foldl (fun acc (_, id, _) => if acc.contains id then acc else acc ++ [id]) []
+  let num (id : Nat) : Int := match ids.findIdx? (· == id) with | some k => k | none => -1
+  let status (id : Nat) : Nat := match s.elems[id]? with
+    | some e => if e.computed then 2 else if e.prepared then 1 else 0
+    | none => 0
+  let e := String.join (s.emap.map fun ((a, b, c, d), id, p) => s!" {a} {b} {c} {d} {num id} {p} {status id}")
+  let n := String.join (s.nontriv.map fun ((a, b, c, d), id) => s!" {a} {b} {c} {d} {num id} {status id}")
+  s!"o tpclist {s.emap.length}{e} nt {s.nontriv.length}{n}"
 
 def okOr (r : Except Exc (Lattice K)) (st : St K) : St K × List String :=
   match r with
@@ -246,6 +264,33 @@ def exec (conjv : K → K) (half : K) (st : St K) (cmd : List String) : Option (
     else match innerState st.blkOf st.blocks n with
       | some i => some (st, [s!"o ok {i}"])
       | none => some (st, ["o CRASH oob"])
+  | ["tpc", "new"] => some ({ st with c4 := {} }, ["o ok"])
+  | "tpc" :: "fill" :: n :: qs =>
+    some ({ st with c4 := C4.fill Pomerol.Gen.Core.fillClearsNonTrivial st.tbl.length st.c4 (readQuads n.toNat! qs) }, ["o ok"])
+  | "tpc" :: "prepareall" :: n :: qs =>
+    some ({ st with c4 := C4.prepareAll Pomerol.Gen.Core.fillClearsNonTrivial st.tbl.length st.c4 (readQuads n.toNat! qs) }, ["o ok"])
+  | ["tpc", "computeall", split] =>
+    let (c, ok) := C4.computeAll (split != "0") st.c4
+    some ({ st with c4 := c }, [if ok then "o ok" else "o exc statusMismatch"])
+  | ["tpc", "list"] => some (st, [c4List st.c4])
+  | ["tpc", "prepare", a, b, c, d] =>
+    let (c4, id, _) := C4.lookup st.c4 (a.toNat!, b.toNat!, c.toNat!, d.toNat!)
+    some ({ st with c4 := C4.markPrepared c4 id }, ["o ok"])
+  | ["tpc", "compute", a, b, c, d] =>
+    let (c4, id, _) := C4.lookup st.c4 (a.toNat!, b.toNat!, c.toNat!, d.toNat!)
+    match C4.computeElem c4 id with
+    | some c4' => some ({ st with c4 := c4' }, ["o ok"])
+    | none => some ({ st with c4 := c4 }, ["o exc statusMismatch"])
+  | ["tpc", "get", a, b, c, d, n1, n2, n3] =>
+    let (c4, id, _) := C4.lookup st.c4 (a.toNat!, b.toNat!, c.toNat!, d.toNat!)
+    -- status of the element: C = computed, P = prepared only, N = neither (the replay loop turns this into the
+    -- expected verdict using the `vanishing` flag reported for the quadruple)
+    let e := (c4.elems[id]?).getD default
+    let status := if e.computed then "C" else if e.prepared then "P" else "N"
+    some ({ st with c4 := c4 }, [s!"o tpcget {a} {b} {c} {d} {n1} {n2} {n3} {status}"])
+  | ["tpc", "evalall", _, _, _] =>
+    let allComputed := st.c4.emap.all fun (_, id, _) => C4.evaluable st.c4 id
+    if allComputed then some (st, [s!"o tpcevalall {st.c4.emap.length} 0"]) else none
   | ["hprepare"] =>
     let ls := (List.range st.blocks.length).map fun b =>
       let n := (st.blocks.getD b []).length
@@ -323,6 +368,7 @@ def replay (conjv : K → K) (half : K) (lines : List String) : IO Unit := do
   let mut tally : Driver.Tally := {}
   let mut idx := 0
   let mut lastDump : List String := []
+  let mut lastBulkOk := false
   let mut mustBeUnchanged : Option String := none
   for (cmd, obs) in groups do
     idx := idx + 1
@@ -364,6 +410,46 @@ def replay (conjv : K → K) (half : K) (lines : List String) : IO Unit := do
       tally := tally.bump "unmodelled"
     | some (st', expected) =>
       tally := tally.bump (cmd.headD "?")
+      -- `tpc get` lines carry numeric values after the verdict: compare the predicted prefix only
+      -- an element that was never prepared silently evaluates to 0 (`Vanishing` is still true); a prepared but
+      -- uncomputed one throws unless it has no parts at all
+      let status := if cmd.take 2 == ["tpc", "get"] then ((expected.headD "").splitOn " ").getLastD "" else ""
+      let expected := if cmd.take 2 == ["tpc", "get"] then
+          match obs.map Driver.toks with
+          | [t] =>
+            let vanishing := t.getLastD "0" == "1"
+            let verdict := if status == "P" && !vanishing then "exc logic" else "ok"
+            [(" ".intercalate ((Driver.toks (expected.headD "")).dropLast)) ++ " " ++ verdict]
+          | _ => expected
+        else expected
+      let obs' := if cmd.take 2 == ["tpc", "get"] then obs.map fun l =>
+          let t := Driver.toks l
+          " ".intercalate (t.take (if t.getD 9 "" == "exc" then 11 else 10)) else obs
+      -- property oracle C13: the container's value equals that of a directly constructed object; after a bulk
+      -- computation everything listed is evaluable
+      if cmd.take 2 == ["tpc", "get"] then
+        match obs.map Driver.toks with
+        | [t] =>
+          if t.getD 9 "" == "ok" && status == "C" then
+            let v := (floatOfHex (t.getD 10 "")).getD 0.0; let vi := (floatOfHex (t.getD 11 "")).getD 0.0
+            let r := (floatOfHex (t.getD 12 "")).getD 0.0; let ri := (floatOfHex (t.getD 13 "")).getD 0.0
+            let d := Float.sqrt ((v - r) * (v - r) + (vi - ri) * (vi - ri))
+            if d > 1.0e-9 * (1.0 + Float.sqrt (r * r + ri * ri)) then
+              IO.println s!"PROPFAIL[C13] cmd#{idx} {" ".intercalate cmd} :: container value ({v},{vi}) differs from the directly constructed object ({r},{ri})"
+              tally := tally.pfail
+          else if status == "C" then
+            IO.println s!"PROPFAIL[C13] cmd#{idx} {" ".intercalate cmd} :: the element is prepared and computed but cannot be evaluated"
+            tally := tally.pfail
+        | _ => pure ()
+      if cmd.take 2 == ["tpc", "evalall"] && lastBulkOk then
+        match obs.map Driver.toks with
+        | [t] => if t.getD 3 "0" != "0" then
+            IO.println s!"PROPFAIL[C13] cmd#{idx} after a bulk computation {t.getD 3 "?"} of {t.getD 2 "?"} listed elements cannot be evaluated"
+            tally := tally.pfail
+        | _ => pure ()
+      if cmd.take 2 == ["tpc", "computeall"] then lastBulkOk := obs == ["o ok"]
+      else if cmd.take 2 != ["tpc", "evalall"] && cmd.take 2 != ["tpc", "list"] && cmd.take 2 != ["tpc", "get"] then lastBulkOk := false
+      let obs := obs'
       if obs == expected then
         tally := tally.ok
         st := st'
